@@ -969,6 +969,36 @@ func requiredExemption(r *core.Report, rule string) {
 		if loop == nil {
 			core.Fail("visitJSONObject: no loop over schema.Required")
 		}
+		// the property scan: a read-only property "is in the request" when its key is, null included
+		for _, lit := range []string{"readOnly property", "writeOnly property"} {
+			var site ast.Node
+			ast.Inspect(fd.Body, func(nd ast.Node) bool {
+				if bl, ok := nd.(*ast.BasicLit); ok && bl.Kind == token.STRING && strings.Contains(bl.Value, lit) {
+					site = bl
+				}
+				return true
+			})
+			if site == nil {
+				continue
+			}
+			key := "reqexempt:presence/" + strings.Fields(lit)[0]
+			byKey, byNil := false, false
+			for _, a := range core.Atoms(core.GuardsAt(info, fd.Body, site)) {
+				if id, ok := ast.Unparen(a.Expr).(*ast.Ident); ok && a.Pos {
+					for _, as := range core.NewFuncFacts(p, info, fd).Assigns(info.ObjectOf(id)) {
+						if as.MapIndex != nil {
+							byKey = true
+						}
+					}
+				}
+				if be, ok := ast.Unparen(a.Expr).(*ast.BinaryExpr); ok && core.IsNil(info, be.Y) {
+					if _, isIx := ast.Unparen(be.X).(*ast.IndexExpr); isIx {
+						byNil = true
+					}
+				}
+			}
+			r.Check(byKey && !byNil, key, p.Pos(site.Pos()), "presence of the key decides", "whether a "+strings.Fields(lit)[0]+" property is present is decided by `value[k] != nil`: a property sent as null counts as absent and passes, although it must not be sent at all")
+		}
 		type want struct{ annot, dir string }
 		for _, w := range []want{{"ReadOnly", "asreq"}, {"WriteOnly", "asrep"}} {
 			key := "reqexempt:" + w.annot + "/" + w.dir
